@@ -68,6 +68,7 @@ type keyStyle struct {
 	fixed    int // > 0: fixed key length (no prefix relations possible)
 	words    bool
 	long     bool
+	wide     bool // only used by TestVectorBoundaries (boundary_test.go)
 }
 
 var (
@@ -103,6 +104,14 @@ func (st keyStyle) byteAt(s src, label string) byte {
 	return st.alphabet[s.intn(len(st.alphabet), label)]
 }
 
+// wideByteAt: the byte of a wide-style key at position i.
+func (st keyStyle) wideByteAt(s src, i int) byte {
+	if i%2 == 0 {
+		return st.alphabet[s.intn(len(st.alphabet), "b")]
+	}
+	return byte(s.intn(256, "wideByte"))
+}
+
 func (st keyStyle) randBytes(s src, n int, label string) []byte {
 	b := make([]byte, n)
 	for i := range b {
@@ -113,6 +122,17 @@ func (st keyStyle) randBytes(s src, n int, label string) []byte {
 
 func (st keyStyle) fresh(s src) []byte {
 	switch {
+	case st.wide:
+		// even positions: one of the (two) alphabet bytes, odd positions: any byte
+		n := st.fixed
+		if n == 0 {
+			n = st.minLen + s.intn(st.maxLen-st.minLen+1, "len")
+		}
+		k := make([]byte, n)
+		for i := range k {
+			k[i] = st.wideByteAt(s, i)
+		}
+		return k
 	case st.fixed > 0:
 		return st.randBytes(s, st.fixed, "b")
 	case st.words:
@@ -150,7 +170,11 @@ func (st keyStyle) nextKey(s src, keys [][]byte) []byte {
 			k := append([]byte{}, base...)
 			from := s.intn(st.fixed, "from")
 			for i := from; i < st.fixed; i++ {
-				k[i] = st.byteAt(s, "b")
+				if st.wide {
+					k[i] = st.wideByteAt(s, i)
+				} else {
+					k[i] = st.byteAt(s, "b")
+				}
 			}
 			return k
 		}
